@@ -200,7 +200,7 @@ struct Problem{
         else composite = TasDREAM::posterior<form>(merged, pr);
     }
 
-    std::string json(Stream const &S, int burn, std::vector<int> const &segs, bool preset) const{
+    std::string json(Stream const &S, int burn, std::vector<int> const &segs, bool preset, int pre_burn) const{
         static const char *un[] = {"builtin-uniform", "builtin-gaussian", "builtin-none", "no_update", "user"};
         static const char *dn[] = {"const_one", "const_percent", "user-const", "user-rng", "user-private", "user-wide"};
         static const char *on[] = {"hypercube", "ball", "everything", "islands", "initial-points-only", "grid", "halfspace"};
@@ -212,6 +212,7 @@ struct Problem{
         j.str("domain", on[dom]); if (dom == 5) j.i("grid_domain", gdom);
         j.str("pdf", pn[pdf]); if (pdf >= 6 && pdf <= 8){ j.i("prior", prior).i("model_outputs", mout); } if (pdf == 7) j.i("aniso", aniso);
         j.str("stream", Stream::name(S.kind)); if (S.kind == Stream::forced){ j.i("force_pos", S.force_pos).num("force_val", S.force_val); } if (S.kind == Stream::lattice) j.i("denom", S.denom);
+        if (pre_burn) j.i("burnup_only_first_run", pre_burn);
         j.i("burnup", burn).vec("collect", segs).b("preset_pdf", preset).vec("init", init, 48);
         return j.obj();
     }
@@ -709,12 +710,14 @@ void mon_c15(CaseCtx &c, Rng &rng){
     }
     bool preset = rng.coin(0.15);
     bool lambda_init = rng.coin(0.3);
+    // the burn-up can be split as well: run(b0, 0); run(b, c1); run(0, c2) ... equals run(b0 + b, c1 + c2 + ...)
+    int pre_burn = rng.coin(0.15) ? rng.range(1, 5) : 0;
     if (argi("minimal", 0)){
         // the smallest input of the kindex-clamp defect: one chain, one dimension, every draw exactly 1.0, one iteration (tsgmon C15 0 0 1 minimal=1)
         P = Problem(); P.N = 1; P.d = 1; P.upd = 3; P.diff = 0; P.dom = 2; P.pdf = 4; P.lo = {0.0}; P.hi = {1.0}; P.cen = {0.5}; P.init = {0.25};
-        S.kind = Stream::ones; burn = 0; segs = {1}; preset = false; lambda_init = false;
+        S.kind = Stream::ones; burn = 0; segs = {1}; preset = false; lambda_init = false; pre_burn = 0;
     }
-    emit_begin(c, P.json(S, burn, segs, preset));
+    emit_begin(c, P.json(S, burn, segs, preset, pre_burn));
 
     const int N = P.N, d = P.d;
     if (N > 0) for(int i=0; i<N; i++) if (!P.inside_pure(row(P.init, (size_t) i, d))){ c.inconc("initial-state-outside-domain"); return; }
@@ -737,6 +740,12 @@ void mon_c15(CaseCtx &c, Rng &rng){
     std::unique_ptr<TasmanianDREAM> A; Shadow15 MA;
     make_state(A, MA);
     bool failed = false;
+    if (pre_burn > 0){
+        Log L;
+        std::string err = run_library(P, *A, pre_burn, 0, S, S2, L);
+        if (!err.empty()){ c.viol("exception:" + err.substr(0, err.find(':')), J().str("run", "burnup-only").str("what", err).obj()); failed = true; }
+        else{ check_run(P, L, pre_burn, 0, *A, MA, c, "burnup-only"); if (MA.broken) failed = true; }
+    }
     for(size_t q=0; q<segs.size() && !failed; q++){
         Log L;
         std::string tag = "split-" + std::to_string(q);
@@ -748,14 +757,14 @@ void mon_c15(CaseCtx &c, Rng &rng){
     if (N == 0){ c.sig("null-state"); return; }
     // ---- the combined run from the same initial state under the same random streams ----
     int total_collect = 0; for(int s : segs) total_collect += s;
-    if (!failed && segs.size() > 1){
+    if (!failed && (segs.size() > 1 || pre_burn > 0)){
         std::unique_ptr<TasmanianDREAM> B; Shadow15 MB;
         make_state(B, MB);
         S.reset(); S2.reset();
         Log L;
-        std::string err = run_library(P, *B, burn, total_collect, S, S2, L);
+        std::string err = run_library(P, *B, pre_burn + burn, total_collect, S, S2, L);
         if (!err.empty()){ c.viol("exception:" + err.substr(0, err.find(':')), J().str("run", "combined").str("what", err).obj()); return; }
-        check_run(P, L, burn, total_collect, *B, MB, c, "combined");
+        check_run(P, L, pre_burn + burn, total_collect, *B, MB, c, "combined");
         std::string field;
         if (!same_vec(A->getHistory(), B->getHistory())) field = "history";
         else if (!same_vec(A->getHistoryPDF(), B->getHistoryPDF())) field = "pdf-history";
@@ -763,14 +772,14 @@ void mon_c15(CaseCtx &c, Rng &rng){
         else if (!same_bits(A->getAcceptanceRate(), B->getAcceptanceRate())) field = "acceptance-rate";
         else for(int i=0; i<N; i++) if (!same_bits(A->getPDFvalue((size_t) i), B->getPDFvalue((size_t) i))) field = "pdf-values";
         if (!field.empty())
-            c.viol("split-differs-from-combined:" + field, J().i("burnup", burn).vec("collect", segs).i("history_split", (long long) A->getHistory().size())
+            c.viol("split-differs-from-combined:" + field, J().i("burnup_only_first_run", pre_burn).i("burnup", burn).vec("collect", segs).i("history_split", (long long) A->getHistory().size())
                    .i("history_combined", (long long) B->getHistory().size()).num("rate_split", A->getAcceptanceRate()).num("rate_combined", B->getAcceptanceRate()).obj());
         c.count("split_vs_combined_compared");
     }
     if (failed) return;
-    if (burn + total_collect == 0){ c.inconc("no-iterations"); return; }
+    if (pre_burn + burn + total_collect == 0){ c.inconc("no-iterations"); return; }
     c.count("cases_with_iterations");
-    c.sig(P.sig() + "s" + std::to_string(S.kind) + (burn ? "b" : "") + "g" + std::to_string(segs.size()));
+    c.sig(P.sig() + "s" + std::to_string(S.kind) +  (burn ? "b" : "") + (pre_burn ? "B" : "") + "g" + std::to_string(segs.size()));
 }
 
 } // namespace vf
